@@ -86,7 +86,12 @@ def make_client_config(rng, focus, idx):
     N = rng.randint(2, 4)
     if fam in ('reshape_noncontig', 'sum_axis0'):
         N = rng.randint(2, 3)
-    if workload == 'driver':
+    if workload == 'driver' and not probe and rng.random() < 0.1:
+        # two independents, scalar output: gradient with a list of arrays
+        workload = 'driver2'
+        n_in = [N, rng.randint(2, 4)]
+        outs = [()]
+    elif workload == 'driver':
         n_in = [N]
         if rng.random() < 0.5:
             outs = [()]
@@ -110,7 +115,7 @@ def make_client_config(rng, focus, idx):
     prelude = focus == 'C05' and fam == 'buffer' and not off_prob and rng.random() < 0.2
     prog = programs.gen_program(rng, fam, n_in, outs, size,
                                 truth_only=truth_only, off_prob=off_prob, prelude=prelude)
-    if workload == 'multi' and len(n_in) == 2:
+    if workload in ('multi', 'driver2') and len(n_in) == 2:
         _use_second_input(rng, prog)
     if rng.random() < 0.45 or prelude:
         rec = {'kind': 'nd', 'vals': [point(rng, n) for n in n_in]}
@@ -334,6 +339,17 @@ def make_run(focus, seed):
 
     def emit_drv(c):
         prog = prog_of(c)
+        if clients_cfg[c.idx]['workload'] == 'driver2':
+            step = {'op': 'drv', 'c': c.idx, 'name': 'gradient_list', 'x': [point(rng, n) for n in prog['n_in']],
+                    'v': None, 'w': None, 'xlist': True}
+            step['fault'] = maybe_fault('drv', 'gradient')
+            c.have_fwd = True
+            c.last_fwd_kind = ('drv', 'gradient_list', None)
+            c.last_call = step
+            plan.append(step)
+            if rng.random() < 0.3:
+                hints.append((c.idx, 'rev'))
+            return
         N = prog['n_in'][0]
         osh = prog['out_shapes'][0]
         if len(osh) == 0:
@@ -491,7 +507,7 @@ def make_run(focus, seed):
             c.n_calls = 0
             return
         c.n_calls += 1
-        driver_ok = clients_cfg[c.idx]['workload'] == 'driver'
+        driver_ok = clients_cfg[c.idx]['workload'] in ('driver', 'driver2')
         frozen = bool(prog.get('frozen'))
         table = [('fwd', W['fwd']), ('rev', W['rev'] if (c.have_fwd and not frozen) else 0.0),
                  ('drv', W['drv'] if driver_ok else 0.0),
